@@ -133,7 +133,7 @@ fn run_seq(env: &mut Env, tree: &mut EntriesTree<'_, R<'_>>) -> gimli::Result<TR
 
 pub fn sub_tree_sequences(tier: Tier) -> Sub {
     let maxn = tier.pick(4, 5);
-    let maxlen = tier.pick(7u32, 9u32);
+    let maxlen = tier.pick(6u32, 8u32);
     let cs = combos(1, maxn);
     let slots = (2 * maxn + 1 + 1) as u64;
     let sibs = [SIB_MODES[0], SIB_MODES[1], SIB_MODES[6], SIB_MODES[9]];
